@@ -34,11 +34,18 @@ type chargePoint struct {
 	extendedTriggerMessageHandler extendedtriggermessage.ChargePointHandler
 	secureFirmwareHandler         securefirmware.ChargePointHandler
 	certificateHandler            certificates.ChargePointHandler
-	confirmationHandler           chan ocpp.Response
-	errorHandler                  chan error
+	conclusions                   chan conclusion // responses and errors on their way to the callback routine, in the order they were concluded
 	callbacks                     callbackqueue.CallbackQueue
 	stopC                         chan struct{}
 	errC                          chan error // external error channel
+}
+
+// conclusion is what a request ended with: the peer's response, or an error.
+// Both kinds travel over one channel: over two, their order was lost whenever the callback routine was busy,
+// and the callbacks (matched by order) received each other's conclusion.
+type conclusion struct {
+	response ocpp.Response
+	err      error
 }
 
 func (cp *chargePoint) error(err error) {
@@ -50,7 +57,7 @@ func (cp *chargePoint) error(err error) {
 // Callback invoked whenever a queued request is canceled, due to timeout.
 // By default, the callback returns a GenericError to the caller, who sent the original request.
 func (cp *chargePoint) onRequestTimeout(_ string, _ ocpp.Request, err *ocpp.Error) {
-	cp.errorHandler <- err
+	cp.conclusions <- conclusion{err: err}
 }
 
 // Errors returns a channel for error messages. If it doesn't exist it es created.
@@ -343,20 +350,15 @@ func (cp *chargePoint) SendRequestAsync(request ocpp.Request, callback func(conf
 func (cp *chargePoint) asyncCallbackHandler(stopC chan struct{}) {
 	for {
 		select {
-		case confirmation := <-cp.confirmationHandler:
+		case c := <-cp.conclusions:
 			// Get and invoke callback
 			if callback, ok := cp.callbacks.Dequeue("main"); ok {
-				callback(confirmation, nil)
-			} else {
-				err := fmt.Errorf("no handler available for incoming response %v", confirmation.GetFeatureName())
+				callback(c.response, c.err)
+			} else if c.err != nil {
+				err := fmt.Errorf("no handler available for error %v", c.err.Error())
 				cp.error(err)
-			}
-		case protoError := <-cp.errorHandler:
-			// Get and invoke callback
-			if callback, ok := cp.callbacks.Dequeue("main"); ok {
-				callback(nil, protoError)
 			} else {
-				err := fmt.Errorf("no handler available for error %v", protoError.Error())
+				err := fmt.Errorf("no handler available for incoming response %v", c.response.GetFeatureName())
 				cp.error(err)
 			}
 		case <-stopC:
@@ -419,8 +421,7 @@ func (cp *chargePoint) sendResponse(confirmation ocpp.Response, err error, reque
 func (cp *chargePoint) dropStaleConclusions() {
 	for {
 		select {
-		case <-cp.confirmationHandler:
-		case <-cp.errorHandler:
+		case <-cp.conclusions:
 		default:
 			return
 		}
